@@ -1,4 +1,4 @@
-import Proofs.FilterInter
+import Proofs.FilterInter2
 /-!
 # C11 — Filtering keeps exactly the n-grams a restricted decoder can query
 
@@ -89,12 +89,8 @@ theorem single_verdict_cases (V : List Bytes) (o : Opts) (g : Bytes) :
     verdict (.single V) o g = .all ∨ verdict (.single V) o g = .only [] := by
   simp only [verdict, verdictWords]; split <;> simp
 
-/-- **kept_iff_union** (partial: the direction "kept ⇒ some sentence contains every non-tag
-word", i.e. soundness of `FirstIntersectionSorted` for the order of ranges the driver uses — the
-lemma `firstInter_mem` holds for *every* order, which covers `std::sort`'s unspecified ties.
-Missing: "some sentence contains them all ⇒ kept" (completeness of the restart loop; needs the
-sortedness of posting lists and the fuel bound) — covered by the correspondence run only). -/
-theorem kept_iff_union_partial (sents : List (List Bytes)) (o : Opts) (g : Bytes)
+/-- soundness half of `kept_iff_union` (no sortedness needed; any order of the ranges) -/
+theorem kept_union_sound (sents : List (List Bytes)) (o : Opts) (g : Bytes)
     (h : verdict (.union sents) o g = .all) :
     ∃ c : Nat, ∀ w ∈ (words (if o.context then contextOf g else g)).filter (fun w => !isTag w),
       ∃ sent : List Bytes, sents[c]? = some sent ∧ w ∈ sent := by
@@ -122,11 +118,8 @@ theorem kept_iff_union_partial (sents : List (List Bytes)) (o : Opts) (g : Bytes
         intro s hs
         exact firstInter_mem hf s ((mem_sortBySize s _).mpr hs)
 
-/-- **kept_iff_multi** (partial: "a line is sent to file `s` only if sentence `s` contains every
-non-tag word" — soundness of `AllIntersection`; and a line without non-tag words goes to all
-files.  Missing: every sentence of the intersection is reported, exactly once — covered by the
-correspondence run only). -/
-theorem kept_iff_multi_partial (sents : List (List Bytes)) (ws : List Bytes) (ks : List Nat) (s : Nat)
+/-- soundness half of `kept_iff_multi` (no sortedness needed; any order of the ranges) -/
+theorem kept_multi_sound (sents : List (List Bytes)) (ws : List Bytes) (ks : List Nat) (s : Nat)
     (h : multiVerdict sents ws = .only ks) (hs : s ∈ ks) :
     ∀ w ∈ ws.filter (fun w => !isTag w), ∃ sent : List Bytes, sents[s]? = some sent ∧ w ∈ sent := by
   unfold multiVerdict at h
@@ -142,6 +135,93 @@ theorem kept_iff_multi_partial (sents : List (List Bytes)) (ws : List Bytes) (ks
       apply gatherSets_spec sents ws _ hg s
       intro t ht
       exact allInterFuel_mem _ _ s hs t ((mem_sortBySize t _).mpr ht)
+
+/-- **kept_iff_union**: in union mode an n-gram is kept exactly when one sentence contains all
+its non-tag words (trivially so when it has none).  Uses soundness and completeness of
+`FirstIntersectionSorted`'s restart loop (`firstInter_isSome_iff`, valid for every order of the
+ranges — `std::sort` leaves ties unspecified) and that posting lists are strictly increasing. -/
+theorem kept_iff_union (sents : List (List Bytes)) (o : Opts) (g : Bytes) :
+    verdict (.union sents) o g = .all ↔
+      ∃ c : Nat, ∀ w ∈ (words (if o.context then contextOf g else g)).filter (fun w => !isTag w),
+        ∃ sent : List Bytes, sents[c]? = some sent ∧ w ∈ sent := by
+  constructor
+  · exact kept_union_sound sents o g
+  · rintro ⟨c, hc⟩
+    simp only [verdict, verdictWords]
+    generalize words (if o.context then contextOf g else g) = ws at hc ⊢
+    obtain ⟨sets, e, hcom, _⟩ := gatherSets_complete sents c ws hc
+    have hp : passUnion sents ws = true := by
+      unfold passUnion
+      rw [e]
+      cases sets with
+      | nil => rfl
+      | cons s0 rest =>
+        simp only
+        exact (firstInter_isSome_iff (sortBySize_ne_nil (by simp)) (sortBySize_allInc (gatherSets_inc sents ws _ e))).mpr
+          ⟨c, sortBySize_common.mpr hcom⟩
+    simp [hp]
+
+/-- **kept_iff_multi**: in multiple mode a line goes to all files iff it has no non-tag word;
+otherwise it goes to file `s` iff sentence `s` contains all its non-tag words, and each such
+file is named exactly once, in increasing order (`AllIntersection` enumerates exactly the
+intersection of the posting lists). -/
+theorem kept_iff_multi (sents : List (List Bytes)) (ws : List Bytes) :
+    (multiVerdict sents ws = .all ↔ ws.filter (fun w => !isTag w) = []) ∧
+    (∀ ks, multiVerdict sents ws = .only ks →
+      ks.Pairwise (· < ·) ∧
+      ∀ s : Nat, s ∈ ks ↔ (ws.filter (fun w => !isTag w) ≠ [] ∧
+        ∀ w ∈ ws.filter (fun w => !isTag w), ∃ sent : List Bytes, sents[s]? = some sent ∧ w ∈ sent)) := by
+  unfold multiVerdict
+  cases hg : gatherSets sents ws with
+  | none =>
+    have hno : ∀ s : Nat, ¬ (∀ w ∈ ws.filter (fun w => !isTag w), ∃ sent : List Bytes, sents[s]? = some sent ∧ w ∈ sent) := by
+      intro s hs
+      obtain ⟨sets, e, _, _⟩ := gatherSets_complete sents s ws hs
+      rw [hg] at e; cases e
+    refine ⟨⟨(by intro h; cases h), ?_⟩, ?_⟩
+    · intro hnil
+      exfalso
+      apply hno 0
+      intro w hw; rw [hnil] at hw; cases hw
+    · intro ks hks
+      injection hks with hks; subst hks
+      refine ⟨List.Pairwise.nil, fun s => ⟨(fun h => by cases h), fun h => absurd h.2 (hno s)⟩⟩
+  | some sets =>
+    have hnil := gatherSets_nil_iff sents ws sets hg
+    cases sets with
+    | nil =>
+      refine ⟨⟨fun _ => hnil.mp rfl, fun _ => rfl⟩, ?_⟩
+      intro ks hks; cases hks
+    | cons s0 rest =>
+      have hne : ws.filter (fun w => !isTag w) ≠ [] := fun h => by have := hnil.mpr h; cases this
+      refine ⟨⟨(by intro h; cases h), fun h => absurd h hne⟩, ?_⟩
+      intro ks hks
+      simp only at hks
+      injection hks with hks; subst hks
+      obtain ⟨h1, h2⟩ := allInter_spec (sortBySize_ne_nil (l := s0 :: rest) (by simp))
+        (sortBySize_allInc (gatherSets_inc sents ws _ hg))
+      refine ⟨h2, fun s => ?_⟩
+      rw [h1 s, sortBySize_common]
+      constructor
+      · intro hc
+        exact ⟨hne, gatherSets_spec sents ws _ hg s hc⟩
+      · rintro ⟨_, hall⟩
+        obtain ⟨sets', e', hc', _⟩ := gatherSets_complete sents s ws hall
+        rw [hg] at e'; injection e' with e'; subst e'
+        exact hc'
+
+/-- multiple mode: every file receives a sublist of the input lines (no line twice) -/
+theorem out_sublist_multiple (sents : List (List Bytes)) (o : Opts) (items : List Item) (k : Nat) :
+    (keptLines (fun it => verdict (.multiple sents) o it.ngram) k items).Sublist (items.map (·.line)) := by
+  apply out_sublist
+  intro it _
+  simp only [verdict, verdictWords]
+  generalize words (if o.context then contextOf it.ngram else it.ngram) = ws
+  cases hv : multiVerdict sents ws with
+  | all => simp [Verdict.copies]
+  | only ks =>
+    simp only [Verdict.copies]
+    exact Inc.count_le_one ((kept_iff_multi sents ws).2 ks hv).1 k
 
 /-- **context_option**: with `context` the filter looks at the n-gram without its last word
 (everything before the last space at a position > 0) -/
